@@ -208,6 +208,25 @@ BuildN(t) ==
     [] t.k = "and"  -> MkInter([i \in 1..Len(t.xs) |-> BuildN(t.xs[i])])
     [] t.k = "quot" -> DerivN(BuildN(t.a), t.c)
 
+(* BaseRegLan::deriv_class: the derivative classes of a term as a set of intervals <<lo, hi>> (the complementary   *)
+(* class is the rest of the alphabet).  merge_partitions overlays two partitions: the cut points of both, and     *)
+(* every piece between consecutive cut points that lies inside an interval of either one.                        *)
+Overlay(P, Q) ==
+  LET U    == P \cup Q
+      cuts == {p[1] : p \in U} \cup {p[2] + 1 : p \in U}
+      nextCut(c) == CHOOSE d \in cuts : d > c /\ \A e \in cuts : e > c => d <= e
+      pieces == {<<c, nextCut(c) - 1>> : c \in {x \in cuts : \E d \in cuts : d > x}}
+  IN {q \in pieces : \E p \in U : p[1] <= q[1] /\ q[2] <= p[2]}
+RECURSIVE OverlayAll(_)
+OverlayAll(Ps) == IF Ps = {} THEN {} ELSE LET P == CHOOSE X \in Ps : TRUE IN Overlay(P, OverlayAll(Ps \ {P}))
+RECURSIVE ClassesN(_)
+ClassesN(t) ==
+  CASE t.k \in {"none", "eps"} -> {}
+    [] t.k = "rng"  -> {<<t.lo, t.hi>>}
+    [] t.k = "cat2" -> IF NulN(t.a) THEN Overlay(ClassesN(t.a), ClassesN(t.b)) ELSE ClassesN(t.a)
+    [] t.k \in {"loop", "not"} -> ClassesN(t.a)
+    [] t.k \in {"alt", "and"} -> OverlayAll({ClassesN(x) : x \in t.s})
+
 (* exact language equality of two N-terms *)
 SameLang(a, b) == Equiv(Ke(a), Ke(b))
 =============================================================================
